@@ -224,8 +224,13 @@ class World(object):
         return lru.decode(self.cfg.encoding) if self.cfg.query_str else lru
 
     def _op_as_iter(self, op, tr):
-        """add_links handed a one-shot iterator instead of a list."""
+        """add_links handed a one-shot iterator instead of a list; a crawl batch whose target
+        collections are one-shot iterators."""
         _, inner = op
+        if inner[0] == "crawl":
+            self._op_crawl(inner, tr)
+            data = {self._x(s_): iter([self._x(t_) for t_ in tgts]) for s_, tgts in inner[1]}
+            return lambda: self.t.index_batch_crawl(data, 1)
         assert inner[0] == "links"
         thunk = self._op_links(inner, tr)
         pairs = [(self._x(a), self._x(b)) for a, b in inner[1]]
